@@ -25,7 +25,7 @@ from concurrent.futures import ProcessPoolExecutor, as_completed
 from . import VERIF_DIR, REPO, use_repo
 
 NWORKERS = int(os.environ.get('VERIF_JOBS', '16'))
-CASE_TIMEOUT = int(os.environ.get('VERIF_CASE_TIMEOUT', '300'))
+CASE_TIMEOUT = int(os.environ.get("VERIF_CASE_TIMEOUT", "120"))
 
 
 class CaseTimeout(BaseException):
@@ -202,19 +202,42 @@ def _worker_init(modname):
     signal.signal(signal.SIGALRM, _alarm)
 
 
-def run_one(mod, sh, kind, idx):
-    """Run one case under the harness' exception classification."""
+_METER = []
+
+
+def run_one(mod, sh, kind, idx, metered=False):
+    """Run one case under the harness' exception classification. A case that trips the
+    wall-clock watchdog is re-run under the logical step meter: only exceeding the step
+    budget is a verdict (non-termination); a second watchdog firing is inconclusive."""
     sh.cur = [kind, idx]
     rng = case_rng(sh.seed, kind, idx)
-    signal.alarm(CASE_TIMEOUT)
+    timeout = getattr(mod, 'CASE_TIMEOUT', CASE_TIMEOUT)
+    signal.alarm(timeout * (4 if metered else 1))
+    meter = None
+    if metered:
+        from .monitor import StepMeter
+        if not _METER:
+            _METER.append(StepMeter())
+        meter = _METER[0]
+        meter.start(getattr(mod, 'STEP_BUDGET', 30000000))
     try:
         mod.run_case(kind, idx, rng, sh)
     except Mismatch as m:
         sh.violation(m.key, **m.detail)
     except CaseTimeout:
-        sh.timeouts.append([kind, idx])
+        if meter:
+            meter.stop()
+            meter = None
+        signal.alarm(0)
+        if metered:
+            sh.timeouts.append([kind, idx])
+        else:
+            sh.count('watchdog_reruns_under_step_meter')
+            run_one(mod, sh, kind, idx, metered=True)
     except BudgetExceeded as e:
-        sh.violation('step-budget-exceeded', where=str(e))
+        fr = lib_frame(e)
+        sh.violation('nontermination:logical step budget exceeded@%s' % fr, steps=str(e),
+                     tb=traceback.format_exc()[-1200:])
     except RecursionError as e:
         fr = lib_frame(e)
         sh.violation('exception:RecursionError@%s' % fr)
@@ -229,6 +252,8 @@ def run_one(mod, sh, kind, idx):
                          tb=traceback.format_exc()[-1200:])
     finally:
         signal.alarm(0)
+        if meter:
+            meter.stop()
 
 
 def _worker_job(job):
